@@ -17,7 +17,7 @@ RULE = ("cases = one entity declaration (CREATE TYPE AS ENUM/OBJECT/TABLE, CREAT
         "every name form (plain, qualified, delimited), enum lists of 1..12 values, 1..6 attributes/columns, alone or between "
         "tables; for types, followed by a table using the type at first/middle/last column with options. Exhaustive option "
         "products first, then seeded random. Non-trivial = every case (each compares a full entity); distinct = distinct DDL text."
-        " Added after seeded defects: keyword-case variants of the declarations the pinned tree recognises case-insensitively, keyword-shaped type names, CREATE DOMAIN AS ENUM, the CREATE TYPE property-list form, several declarations per script, run(); run(group_by_type); run() on one object.")
+        " Added after seeded defects: keyword-case variants of the declarations the pinned tree recognises case-insensitively, keyword-shaped type names, CREATE DOMAIN AS ENUM, the CREATE TYPE property-list form, several declarations per script, run(); run(group_by_type); run() on one object, OBJECT attributes with type parameters, comments, enum values, array and two-word types.")
 ASSUMPTIONS = ["keywords are written in upper case, except that tablespace / enum / database / domain declarations are also given in lower, capitalised and random keyword case (recognised case-insensitively on the pinned tree; the tablespace kind word and ENUM are reported as written); keyword case of the other declarations is not quantified by the property and leaks into their output on the pinned tree, so it is not varied",
                "a qualified schema name a.b is reported as project=a, schema_name=b (calibrated convention); AUTHORIZATION key looked up case-insensitively",
                "domain base types are one word with a size (two-word base types are not supported by the grammar and not named)"]
@@ -71,15 +71,34 @@ def gen_attrs(rng, n):
     return cols
 
 
+RICH_ATTRS = [
+    ("geometry(Point, 4326)", {"type": "geometry", "size": None, "type_parameters": ("Point", 4326)}),
+    ("geometry(LineString, 3857)", {"type": "geometry", "size": None, "type_parameters": ("LineString", 3857)}),
+    ("varchar(10) COMMENT 'c'", {"type": "varchar", "size": 10, "comment": "'c'"}),
+    ("int COMMENT 'primary id'", {"type": "int", "size": None, "comment": "'primary id'"}),
+    ("VARCHAR2(30 CHAR)", {"type": "VARCHAR2", "size": "30 CHAR"}),
+    ("ENUM('a','b')", {"type": "ENUM", "size": None, "values": ["'a'", "'b'"]}),
+    ("int[]", {"type": "int[]", "size": None}),
+    ("character varying(5)", {"type": "character varying", "size": 5}),
+]
+
+
 def gen_object(rng, n=None):
     schema, (name, usable) = rng.choice(SCHEMAS), pick_name(rng)
     cols = gen_attrs(rng, n or rng.randint(1, 6))
-    body = ", ".join(render(S.column_tokens(c)) for c in cols)
-    ddl = "CREATE TYPE %s AS OBJECT (%s);" % (qname(schema, name), body)
-    attrs = []
+    texts, attrs = [], []
     for c in cols:
         ty, sz = S.type_expect(c["type"])
+        texts.append(render(S.column_tokens(c)))
         attrs.append({"name": c["name"], "type": ty, "size": sz})
+    # attributes that declare more than a name, a type and a numeric size: all of it belongs to the attribute record
+    for q in range(rng.choice([0, 0, 1, 2])):
+        text, extra = rng.choice(RICH_ATTRS)
+        nm = "rx%d" % q
+        pos = rng.randint(0, len(texts))
+        texts.insert(pos, nm + " " + text)
+        attrs.insert(pos, dict({"name": nm}, **extra))
+    ddl = "CREATE TYPE %s AS OBJECT (%s);" % (qname(schema, name), ", ".join(texts))
     exp = {"schema": schema, "type_name": name, "base_type": "OBJECT", "properties": {"attributes": attrs}}
     return ddl, exp, None, (schema, name) if usable else None
 
